@@ -2,7 +2,11 @@
 (***************************************************************************)
 (* C10, single operators: every row x direction x domain class x point x   *)
 (* NaN mask (all 16 subsets of the four elements), and per (row, direction)*)
-(* the set of all these tuples in one call.                                *)
+(* the set of all these tuples in one call.  The classes: inside / far     *)
+(* outside / at a declared limit / outside coverage with a null grid, and  *)
+(* the classes of the VALUE space: corners (finite numbers where the       *)
+(* formulas degenerate), +-inf in an element that is read (directions with *)
+(* a declared limit), +-inf and -0.0 in an element that is not worked on.  *)
 (***************************************************************************)
 EXTENDS Catalogue
 
